@@ -129,6 +129,25 @@ func mustCallOnSuccess(fn *ssa.Function, pred func(ssa.Instruction) bool) bool {
 	return true
 }
 
+// mustCallOnSuccessDeep is mustCallOnSuccess where the call may also sit in a module helper every success return of
+// which passes it (inlining bound 3).
+func mustCallOnSuccessDeep(fn *ssa.Function, isTarget func(c *ssa.Call) bool, depth int) bool {
+	return mustCallOnSuccess(fn, func(in ssa.Instruction) bool {
+		c, ok := in.(*ssa.Call)
+		if !ok {
+			return false
+		}
+		if isTarget(c) {
+			return true
+		}
+		g := c.Call.StaticCallee()
+		if g == nil || g.Blocks == nil || g == fn || depth >= 3 || g.Pkg == nil || !strings.HasPrefix(g.Pkg.Pkg.Path(), modPath) {
+			return false
+		}
+		return mustCallOnSuccessDeep(g, isTarget, depth+1)
+	})
+}
+
 // ruleC06SealSync: a segment is marked full only after a successful Sync of that segment in the same function.
 func ruleC06SealSync(r *Run, p *Program, rule string) {
 	n := 0
